@@ -7,7 +7,10 @@ class OpContract:
 
     def __init__(self, name, props, file, func, call, params, spec, cells=None, inv="True", requires=None,
                  raises=(), loops=None, sources=("source",), notes="", witness=None, spec_args=None,
-                 scheduler=None, known=None, elem="val", families=None, exclusive=None):
+                 scheduler=None, known=None, elem="val", families=None, exclusive=None, stage_args=None):
+        #: overrides of the state kinds of callee stages in THIS composition: {stage index: {field: kind}}
+        #: (e.g. the accumulation of a scan stage is known to be an AverageValue record here)
+        self.stage_args = stage_args or {}
         #: K7: per-source guard expressions of which at most one can hold (admits downstream calls outside the lock)
         self.exclusive = exclusive
         #: handler families created per element (inner subscriptions of merge/switch/...):
